@@ -2020,6 +2020,16 @@ where
                 }
             }
 
+            // The items may have used up the chunk: closing this array and opening
+            // the one for the events (3 bytes) is not covered by what the items leave free
+            if wb.empty_as_mut_slice().len() < 3
+                && !self
+                    .send(ReportDataChunkState::ChunkingAttributes, false, wb)
+                    .await?
+            {
+                return Ok(false);
+            }
+
             wb.end_container()?;
         }
 
@@ -2122,6 +2132,15 @@ where
                 {
                     return Ok(false);
                 }
+            }
+
+            // Same as for the attributes: the events may have used up the chunk
+            if wb.empty_as_mut_slice().is_empty()
+                && !self
+                    .send(ReportDataChunkState::ChunkingEvents, false, wb)
+                    .await?
+            {
+                return Ok(false);
             }
 
             wb.end_container()?;
